@@ -3,6 +3,7 @@ C16 — witnesses: clauses that are false of the current code, refuted on a conc
 (mirrored by a `finding:` line in known_findings.txt and a replay on the real implementation in py/props/c16.py).
 -/
 import WpModel.Model.PdfStream
+import WpModel.Model.PdfNames
 
 namespace Wp.C16.Witness
 open Wp Wp.Pdf
@@ -31,5 +32,12 @@ theorem alpha_state_stale_cache_values :
     ((paintsOf (runS {} {} staleAlphaCalls)).head?.map (·.2.ca) = some (some (.int 1))) ∧
     ((paintsOf (runNaive {} {} staleAlphaCalls)).head?.map (·.2.ca) = some (some (.flt (1/2)))) := by
   decide +kernel
+
+/-- **names_sorted is false of the current code**: anchors named `aé` and `b`.  `sorted()` puts `aé` first (code points
+`a` < `b`), but its key is written as `<FEFF 0061 00E9>` whose first byte `FE` is above `b` (`62`): the keys of the
+`/Dests` name array are not in lexical byte order. -/
+theorem dests_names_unsorted :
+    PdfNames.sortedBy PdfNames.lexLe (PdfNames.destKeys [[98], [97, 233]]) = false ∧
+    PdfNames.destKeys [[98], [97, 233]] = [[0xFE, 0xFF, 0, 97, 0, 233], [98]] := by decide
 
 end Wp.C16.Witness
